@@ -82,6 +82,35 @@ func c10(args []string) {
 			jobs = append(jobs, &job{s, exp, Cfg{Buf: b, Procs: []int{1, 2, 4}[rng.Intn(3)], Sched: fmt.Sprintf("%d,300,600", rng.Intn(1<<30))}})
 		}
 	}
+	// directed shape: two differently tagged streams zipped by one task, each also consumed alone downstream
+	for rep := 0; rep < c.Pick(6, 30); rep++ {
+		n := 2 + rep%3
+		s := &spec.Spec{Name: fmt.Sprintf("tagzip%d", rep), MaxTasks: 4, Sources: map[string]string{}}
+		in := []spec.PortDecl{{Name: "in"}}
+		o1 := []spec.PortDecl{{Name: "out"}}
+		for _, side := range []string{"l", "r"} {
+			src := &spec.Proc{Name: "src" + side, Kind: spec.KFileSource}
+			for i := 0; i < n; i++ {
+				f := fmt.Sprintf("%s%d.txt", side, i)
+				src.Files = append(src.Files, f)
+				s.Sources[f] = f + "\n"
+			}
+			s.Procs = append(s.Procs, src,
+				&spec.Proc{Name: "A" + side, Kind: spec.KCmd, Cmd: spec.BuildCmd("A"+side, in, o1, nil, nil, nil)},
+				&spec.Proc{Name: "T" + side, Kind: spec.KMapToTags, Tags: []*spec.TagRule{{Key: "tag" + side, Rule: []string{"stem", "idx"}[rep%2]}, {Key: "const" + side, Rule: "const:c" + side}}},
+				&spec.Proc{Name: "S" + side, Kind: spec.KCmd, Cmd: spec.BuildCmd("S"+side, in, o1, nil, map[string]string{"tg": "in.tag" + side}, nil)})
+			s.Conns = append(s.Conns, &spec.Conn{From: "src" + side + ".out", To: "A" + side + ".in"}, &spec.Conn{From: "A" + side + ".out", To: "T" + side + ".in"},
+				&spec.Conn{From: "T" + side + ".out", To: "S" + side + ".in"}, &spec.Conn{From: "T" + side + ".out", To: "J." + map[string]string{"l": "a", "r": "b"}[side]})
+		}
+		s.Procs = append(s.Procs, &spec.Proc{Name: "J", Kind: spec.KCmd, Cmd: spec.BuildCmd("J", []spec.PortDecl{{Name: "a"}, {Name: "b"}}, []spec.PortDecl{{Name: "out"}, {Name: "res"}}, nil, nil, nil)},
+			&spec.Proc{Name: "K", Kind: spec.KCmd, Cmd: spec.BuildCmd("K", in, o1, nil, nil, nil)})
+		s.Conns = append(s.Conns, &spec.Conn{From: "J.out", To: "K.in"})
+		exp := evalRef(s, nil)
+		if exp.Err != "" {
+			c.Broken("reference cannot evaluate the tag-zip shape: " + exp.Err)
+		}
+		jobs = append(jobs, &job{s, exp, Cfg{Buf: []int{1, 3, 128}[rep%3], Procs: []int{1, 2, 4}[rep%3], Sched: fmt.Sprintf("%d,300,600", rng.Intn(1<<30))}})
+	}
 	run.Parallel(len(jobs), func(i int) {
 		j := jobs[i]
 		root := c.CaseDir()
